@@ -12,6 +12,11 @@
 (*   * velocity and position at t = 0 are exactly the start values;        *)
 (*   * negating all positions and velocities negates every output exactly  *)
 (*     (key(negated) = -key(original)), for every non-zero displacement;   *)
+(*   * a move whose displacement exceeds twice its acceleration plus       *)
+(*     deceleration distance, with start and end speeds inside the limit,  *)
+(*     is accepted: the recorder logs an event "refused" when the          *)
+(*     constructor panics on such a request, and no action of this         *)
+(*     specification consumes that event;                                  *)
 (*   * the speed limit, continuity of velocity and position at the phase   *)
 (*     boundaries, arrival at the end velocity and position, and position  *)
 (*     = integral of velocity (between two instants of one piece the       *)
